@@ -476,6 +476,8 @@ def parse_entry_output(text):
         elif f[0] in ("L", "T") and len(f) >= 3:
             i = f.index([x for x in f if x.startswith("opens=")][0])
             cur[f[0]][f[1]] = {"res": tuple(f[2:i]), "opens": int(f[i][6:]), "first": bytes.fromhex(f[i + 1]).decode("latin-1") if f[i + 1] != "-" else ""}
+        elif f[0] == "P" and len(f) == 3:
+            cur["meta"]["past" + f[1]] = f[2]
         elif f[0] == "end":
             cur["done"] = True
             cur = None
@@ -635,6 +637,27 @@ def judge(r, gen, doc="?"):
                     problems.append(("test-" + what, "test %s=(%s,%r,%r) vs %s=(%s,%r,%r)" % (
                         g[0], ref[0], hexstr(ref[1]), hexstr(ref[2]), e, vals[e][0], hexstr(vals[e][1]), hexstr(vals[e][2]))))
                     break
+    # every kind of FILE the C library can produce for these bytes must behave like the fopen()ed regular file
+    # (cookie stream without a descriptor, fmemopen, freshly written unflushed "w+" stream with and without rewind).
+    # fmemopen refuses seeks beyond the end: it is compared only when the cookie run saw no such seek.
+    for which, names in (("L", ("rc", "tables", "md5", "sequences", "pcm", "type")), ("T", ("rc", "title", "type"))):
+        if (which == "L" and uninit_l) or (which == "T" and uninit_t) or "file" not in r[which]:
+            continue
+        ref = r[which]["file"]["res"]
+        for kd in ("fck", "fmem", "ftmp", "ftmpr"):
+            if kd not in r[which]:
+                continue
+            if kd == "fmem" and r["meta"].get("past" + which) != "0":
+                continue
+            got = r[which][kd]["res"]
+            if got != ref:
+                what = "rc" if (len(got) != len(ref) or got[0] != ref[0]) else [names[i] for i in range(len(ref)) if got[i] != ref[i]][0]
+                problems.append(("stream-%s-%s" % (kd, ("load-" if which == "L" else "test-") + what),
+                                 "%s through a %s stream = %s, through an fopen()ed file = %s" % (
+                                     "load" if which == "L" else "test",
+                                     {"fck": "fopencookie (no descriptor)", "fmem": "fmemopen (no descriptor)",
+                                      "ftmp": "just-written, unflushed w+", "ftmpr": "just-written, rewound w+"}[kd],
+                                     " ".join(got)[:80], " ".join(ref)[:80])))
     # companion files are resolved only for path loads; tests never open anything (FILE/path tests of
     # containers write a temp file)
     for e in ("file", "mem", "cb"):
@@ -656,6 +679,9 @@ def signature_for(kind, fmt_id, fmt_file, gen):
     handle_users = {u["file"] for u in gen["hio_users"] if u["kind"] == "handleType"}
     if fmt_file in handle_users and kind in ("load-rc", "test-rc", "load-type", "test-type"):
         return "entry:%s:file-handle" % fmt_id
+    if kind.startswith("stream-"):
+        # a property of the FILE entry points, not of a format: one signature per stream kind and observable
+        return "stream:" + kind[len("stream-"):].replace("-", ":", 1)
     if kind == "null-path":
         return "entry:%s:null-path" % fmt_id
     return "entry:%s:%s" % (fmt_id, kind)
@@ -956,6 +982,9 @@ def run(ck):
         "callbacks honour the fread/fseek/ftell contract `Legal` (C standard semantics; contents of a partial trailing item and seeks beyond the end unconstrained)",
         "glibc stdio on a regular file behaves as observed by the correspondence harness (EOF indicator kept by a failed fseek, fseek beyond the end allowed)",
         "the empty byte string is outside the domain (the memory entry points refuse size <= 0)",
+        "FILE entry points are exercised with every seekable kind of stdio stream (fopen, fopencookie without a descriptor, fmemopen, "
+        "just-written unflushed w+ with and without rewind); fmemopen refuses seeks beyond the end and is compared only when the "
+        "cookie run saw none; non-seekable streams (pipes) and streams positioned inside a larger file are outside the documented contract",
         "the path entry point is exercised in a directory without companion files; for multi-file formats (translator: loaders that open files) it is compared with nothing",
     ]
 
